@@ -42,6 +42,25 @@ type (
 	safeErrT      struct{ msg string } // SafeValue, error
 )
 
+type (
+	safeMapT   map[string]int
+	safeSliceT []int
+	safePtrT   struct{ n int }
+)
+
+func (safeMapT) SafeValue()   {}
+func (safeSliceT) SafeValue() {}
+func (*safePtrT) SafeValue()  {}
+
+var (
+	c05IntVar  = 5
+	c05PtrSafe = &safePtrT{1}
+	c05MapSafe = safeMapT{"k": 1}
+	c05SlSafe  = safeSliceT{1, 2}
+	c05MapU    = map[string]int{"k": 1}
+	c05ChanU   = make(chan int)
+)
+
 func (i intStrerT) String() string     { return fmt.Sprintf("%dt", int(i)) }
 func (i regIntStrerT) String() string  { return fmt.Sprintf("%dr", int(i)) }
 func (i safeIntStrerT) String() string { return fmt.Sprintf("%ds", int(i)) }
@@ -105,6 +124,7 @@ type c05Leaf struct {
 	RegIdx   int         // >=0: safe iff registered in the configuration
 	Stringer bool        // leaf only under verbs that call String()
 	GoStr    bool        // leaf only under %#v (GoString)
+	OnlyP    bool        // leaf only under %p (a map/slice/pointer, whose %v rendering is not one extent)
 }
 
 var c05LeafCache = c05MakeLeaves()
@@ -166,6 +186,15 @@ func c05MakeLeaves() []c05Leaf {
 	add(c05Leaf{Name: "Safe(SafeValue + registrable int)", Redact: redact.Safe(dblSafeT(6)), Fmt: dblSafeT(6), Safe: true, RegIdx: -1})
 	add(c05Leaf{Name: "Unsafe(SafeValue + registrable int)", Redact: redact.Unsafe(dblSafeT(6)), Fmt: dblSafeT(6), RegIdx: -1})
 	add(c05Leaf{Name: "Unsafe(registrable int)", Redact: redact.Unsafe(regIntT(5)), Fmt: regIntT(5), RegIdx: -1})
+	// pointer-like kinds: %p prints their address through a path of its own
+	add(c05Leaf{Name: "unsafe *int", Redact: &c05IntVar, Fmt: &c05IntVar, RegIdx: -1, OnlyP: true})
+	add(c05Leaf{Name: "unsafe map", Redact: c05MapU, Fmt: c05MapU, RegIdx: -1, OnlyP: true})
+	add(c05Leaf{Name: "unsafe chan", Redact: c05ChanU, Fmt: c05ChanU, RegIdx: -1, OnlyP: true})
+	add(c05Leaf{Name: "Safe(*int)", Redact: redact.Safe(&c05IntVar), Fmt: &c05IntVar, Safe: true, RegIdx: -1, OnlyP: true})
+	add(c05Leaf{Name: "SafeValue pointer", Redact: c05PtrSafe, Fmt: c05PtrSafe, Safe: true, RegIdx: -1, OnlyP: true})
+	add(c05Leaf{Name: "SafeValue map", Redact: c05MapSafe, Fmt: c05MapSafe, Safe: true, RegIdx: -1, OnlyP: true})
+	add(c05Leaf{Name: "SafeValue slice", Redact: c05SlSafe, Fmt: c05SlSafe, Safe: true, RegIdx: -1, OnlyP: true})
+	add(c05Leaf{Name: "Unsafe(SafeValue pointer)", Redact: redact.Unsafe(c05PtrSafe), Fmt: c05PtrSafe, RegIdx: -1, OnlyP: true})
 	add(c05Leaf{Name: "SafeFormatter", Redact: sfLeaf{"pub", "sec"}, Fmt: sfLeaf{"pub", "sec"}, Safe: true, RegIdx: -1})
 	add(c05Leaf{Name: "nil", Redact: nil, Fmt: nil, Safe: true, RegIdx: -1})
 	return ls
@@ -365,8 +394,14 @@ func c05Eval(cs c05Case, seen func(string)) (string, string) {
 		ds = append(ds, cs.D2)
 	}
 	for _, d := range ds {
-		if d.Verb == 'T' || d.Verb == 'p' || d.Verb == 'w' || d.zeroMeetsMinus() {
+		if d.Verb == 'T' || d.Verb == 'w' || d.zeroMeetsMinus() {
 			return "", ""
+		}
+		if (d.Verb == 'p') != (la.OnlyP || (lb.OnlyP && (sh.Two || cs.Shape >= 2))) {
+			return "", "" // %p only for the pointer-like leaves, and those only under %p
+		}
+		if d.Verb == 'p' && (cs.Shape >= 2 || (sh.Two && !(la.OnlyP && lb.OnlyP))) {
+			return "", "" // %p applies to a top-level pointer-like operand only
 		}
 		if (la.Stringer || (lb.Stringer && (sh.Two || cs.Shape >= 2))) && !stringerVerb(d) {
 			return "", ""
